@@ -1,4 +1,5 @@
 import GV.Lib.CborBytes
+import GV.Lib.CborBytesFast
 import GV.Gen.GoLite
 /-
   C07 — transaction byte-offset extraction (core Lean only).
@@ -118,7 +119,7 @@ def outputOffsets (bodyData : Bytes) (bodyOffset : Nat) : List (Nat × Nat) :=
     if count < 0 ∧ !indef then []
     else outputsLoop bodyData bodyOffset count.toNat indef (bodyData.length + 1) hs 0
 
-/-- `extractMetadataOffsets`: (tx index mod 2^32, offset, length), in wire order
+/-- `extractMetadataOffsets`: (tx index, offset, length), in wire order
     (a later entry overwrites an earlier one with the same key). -/
 def metadataLoop (mapData : Bytes) (base : Nat) (count : Nat) (indef : Bool) :
     Nat → Nat → Nat → List (Nat × Nat × Nat)
@@ -130,7 +131,10 @@ def metadataLoop (mapData : Bytes) (base : Nat) (count : Nat) (indef : Bool) :
       | some (key, kl) =>
         match skipItem (mapData.drop (p + kl)) with
         | none => []
-        | some vl => (key % 4294967296, base + p + kl, vl) ::
+        | some vl =>
+          -- a key that is not a uint32 transaction index is skipped (it aliased one before the repair)
+          if key > 4294967295 then metadataLoop mapData base count indef fuel (p + kl + vl) (i + 1)
+          else (key, base + p + kl, vl) ::
             metadataLoop mapData base count indef fuel (p + kl + vl) (i + 1)
     if indef then
       (if p ≥ mapData.length ∨ (mapData.drop p).head? = some 0xff then [] else go ())
